@@ -385,10 +385,7 @@ pub fn execute(prop: &str, sc: &NamesScript, opts: &ExecOpts) -> Outcome {
             fold(&mut out, prop, &r);
             match &r.value {
                 None => out.violate(prop, "scenario-timeout", "names", "the name scenario did not finish".into()),
-                Some(Err(e)) => {
-                    out.inconclusive = true;
-                    out.log.push(format!("setup error: {e:#}"));
-                }
+                Some(Err(e)) => setup_failed(&mut out, prop, "names", &sc.net, e),
                 Some(Ok((reports, notes))) => {
                     for n in notes {
                         if n.starts_with("ISOLATION") {
